@@ -1,5 +1,5 @@
 (* C06 — a failing algorithm is reported and never wedges the study.  Statements only. *)
-From VZ Require Import Base.Prelude Model.Service Proofs.ServiceP Proofs.WedgeP Proofs.EsP.
+From VZ Require Import Base.Prelude Model.Service Proofs.ServiceP Proofs.WedgeP Proofs.EsP Proofs.SuggestSpecP Proofs.AlwaysDoneP.
 
 (* the continuation taken when Pythia fails / under-delivers / its metadata cannot be stored is finish_op: whenever the
    operation record exists, the RPC ends with a DONE operation carrying the error flag, and exactly that is stored *)
@@ -49,6 +49,25 @@ Theorem C06_never_wedged_history : forall ops,
 Proof. intros ops H. destruct wf_init as [W A]. exact (proj1 (never_wedged_history ops init_state W A H)). Qed.
 Print Assumptions C06_never_wedged_history.
 
+(* ALONG EVERY HISTORY - whatever the outcomes of the calls, normal or erroneous, whatever the algorithm answers (failures,
+   short / empty / over-delivery, metadata that cannot be stored) - no suggestion operation is left unfinished; and on
+   every reachable state SuggestTrials on an existing active study NEVER fails: it ends with a finished operation of the
+   asking worker (carrying the error flag when the algorithm failed).  So a later suggest by any worker always reaches the
+   algorithm or the worker's own stock again.  (suggest_answer_ok only excludes the type confusion "an early-stopping
+   answer to a suggest request".) *)
+Theorem C06_no_unfinished_operation_on_any_history : forall ops,
+  Forall suggest_answer_ok ops -> all_done (run_all ops init_state).
+Proof. intros ops H. exact (inv_done _ (always_done ops H)). Qed.
+Print Assumptions C06_no_unfinished_operation_on_any_history.
+
+Theorem C06_suggest_never_fails_on_an_active_study : forall ops k n c count po,
+  Forall suggest_answer_ok ops -> not_decide po ->
+  let s := run_all ops init_state in
+  get_node k (nodes s) = Some n -> immutable (n_study n) = false ->
+  exists s' o, step s (SuggestTrials k c count, po) = (s', Done (RpOp o)) /\ o_done o = true /\ o_client o = c.
+Proof. exact suggest_never_fails. Qed.
+Print Assumptions C06_suggest_never_fails_on_an_active_study.
+
 (* EARLY STOPPING.  "Active" = what the handler itself reads (the first stored record of the trial).  No RPC of any kind,
    with any arguments and any answer of the algorithm - decisions for this trial, for other trials, for none, a failure,
    metadata that cannot be stored - and HOWEVER IT ENDS (normally or with an error) leaves an ACTIVE early-stopping
@@ -73,8 +92,5 @@ Theorem C06_early_stop_reaches_the_algorithm : forall s k n id t e,
 Proof. exact check_early_stop_reaches. Qed.
 Print Assumptions C06_early_stop_reaches_the_algorithm.
 
-(* PARTIAL: RPCs that end with an error.  Errors raised by the guards (missing / inactive study) come before the operation
-   record exists; an error of the datastore itself after that point leaves the record unfinished in the model as in the
-   code (known finding C05-crash-inside-suggest-leaves-operation is the crash variant).  That such datastore errors cannot
-   occur on a well-formed state is decided by the correspondence + monitor for SuggestTrials (for early stopping it is part
-   of the theorem above). *)
+(* PARTIAL: that the handler programs are the code is the trace-level correspondence's business; a crash (not an error)
+   inside SuggestTrials does leave the record unfinished: known finding C05-crash-inside-suggest-leaves-operation. *)
